@@ -4,6 +4,7 @@ mod alloc;
 mod interp;
 mod proc14;
 mod props_sock;
+mod props_sock2;
 mod pure;
 mod sock;
 
@@ -44,6 +45,33 @@ fn main() {
             (
                 "cases run in child server processes (one per worker) with a counting allocator and a panic hook: Content-Length up to 10^30 / chunk-size lines of 1-40 hex digits with far fewer bytes sent, 1-20000 headers, single lines of 1 B - 1 MiB (4 MiB thorough) in request line / header name / header value, TE lists with up to 64 elements and q in {NaN, inf, -inf, 1e39, -0, ...}, random byte mutations (NUL, CR, LF, >= 0x80, ...) and truncations of valid requests incl. pipelines/upgrade/expect, reset storms on TCP (request then RST before accept); handler {answer/drop without reading, read some, read all}; oracle: the child survives, no thread panics, the largest single allocation on library threads and inside library calls <= 64 KiB + 64 x bytes the client had sent, a fresh connection is still served; non-trivial: declared length beyond what was sent, >= 64 KiB sent, or a reset storm",
                 vec!["allocation bound: 64 KiB + 64 x bytes sent (a parsed header costs about 50 bytes of bookkeeping for as little as 5 bytes on the wire, and vectors double)", "a child killed by the harness watchdog is inconclusive, a child that dies by itself (abort, signal) is a violation"],
+            )
+        }
+        "C15" => {
+            let max_len = if cli.thorough { 100_000 } else { 20_000 };
+            parts.push(make_part("sock-cuts", "CONV/sock", cli.cases(600, 30_000), move || props_sock2::c15_sock_strategy(max_len), sock::SockWorker::new, |w, c| props_sock2::c15_sock_test(w, c)));
+            (
+                "part sock-cuts: corpus conversations over real UNIX/TCP sockets, the client sends a prefix (cut at a region boundary -1/0/+1 or at a random offset) and then half-closes, closes, or resets (SO_LINGER 0); oracle: delivered ids are a subset of the requests complete in the prefix (= and answered for half-close), respond() = Ok, no panic, and a fresh connection to the same server is served afterwards; non-trivial: cut strictly inside a message",
+                vec!["socket engine: after an abrupt close late deliveries are only waited for briefly (a late delivery is then not attributed to the case)", "a panic is attributed to the case during which it was observed"],
+            )
+        }
+        "C17" => {
+            let mut p = make_part("real-clock", "CONV/sock", cli.cases(12, 400), props_sock2::c17_time_strategy, |_| (), |w, c| props_sock2::c17_time_test(w, c));
+            p.max_workers = Some(4);
+            parts.push(p);
+            (
+                "part real-clock: on the real clock and with OS threads: recv_timeout(T), T in {0,1,2,5,10,20,50,100} ms on an idle TCP/UNIX server: elapsed >= T - 1.2 ms (deterministic by the wait) and <= 2T + 1 s (re-measured up to 3 times); r OS threads blocked in recv() and u <= r unblock() calls: never more than u come back, exactly u within 10 s; try_recv on an idle server returns nothing; non-trivial: T > 0 or u > 0",
+                vec!["real-clock upper bounds carry 1 s of slack and are re-measured; a receiver that is not released within 10 s is inconclusive here (the scheduled engine decides it)"],
+            )
+        }
+        "C20" => {
+            let mut p = make_part("real-time", "CONV/sock", if cli.thorough { 20 } else { 2 }, props_sock2::c20_real_strategy, |_| (), |w, c| props_sock2::c20_real_test(w, c));
+            p.max_workers = Some(1);
+            p.max_shrink_iters = 0;
+            parts.push(p);
+            (
+                "part real-time (one scenario at a time, ~9 s each): TCP or UNIX server, burst of 6-40 simultaneously open connections all answered, 6.2 s idle: thread count (/proc/self/task) back to <= baseline + accept + 4; next request still served; server dropped (optionally while the application holds a request): connection attempts refused within 2 s, UNIX path removed, the held request's answer reaches the client",
+                vec!["thread counts are process-wide: this part runs single-threaded"],
             )
         }
         "C19" => {
